@@ -57,7 +57,7 @@ def _keys(rng, n_max, pool=None):
 def random_step(rng, profile, allow_repack=True):
     weights = {
         'add': 5, 'addpack': 5, 'pack': 4, 'clean': 2, 'repack': 2, 'delete': 2, 'loosen': 1, 'import': 2,
-        'reopen': 1, 'initagain': 0.3, 'has': 0.7, 'get': 0.7, 'list': 0.5,
+        'reopen': 1, 'initagain': 0.3, 'has': 0.7, 'get': 0.7, 'list': 0.5, 'listpart': 0.3,
     }
     if profile == 'C09':
         weights.update({'addpack': 10, 'add': 8, 'import': 3, 'delete': 1, 'repack': 1, 'readd': 5})
@@ -356,6 +356,12 @@ class Runner:
                 return sorted(res), ''
             if name == 'list':
                 return self.names(list(cont.list_all_objects())), ''
+            if name == 'listpart':       # the caller abandons the listing after its first item
+                first = []
+                for key in cont.list_all_objects():
+                    first.append(key)
+                    break
+                return self.names(first), ''
         except Exception as exc:  # noqa pylint: disable=broad-except
             return [], type(exc).__name__
         raise AssertionError(f'unknown step {name}')
@@ -854,8 +860,8 @@ def _step_from_last(last, src):
         return {'name': 'delete', 'keys': sorted(_set(last['S']))}
     if op == 'has':
         return {'name': 'has', 'keys': sorted(_set(last['S']))}
-    if op == 'list':
-        return {'name': 'list'}
+    if op in ('list', 'listpart'):
+        return {'name': op}
     if op == 'loosen':
         return {'name': 'loosen', 'keys': keys}
     if op == 'import':
